@@ -970,6 +970,21 @@ func ReadConfigFile(fileName string) (common.Configuration, error) {
 		log.Errorf("ReadConfigFile: Cannot read input file: %v, err: %v", fileName, err)
 	}
 
+	return extractConfig(yamlData)
+}
+
+// rereadConfigFile reads the config file for a running server: a file that cannot be read
+// must not replace the running configuration with the defaults.
+func rereadConfigFile(fileName string) (common.Configuration, error) {
+	yamlData, err := os.ReadFile(fileName)
+	if err != nil {
+		return common.Configuration{}, err
+	}
+
+	return extractConfig(yamlData)
+}
+
+func extractConfig(yamlData []byte) (common.Configuration, error) {
 	if hook := hooks.GlobalHooks.ExtractConfigHook; hook != nil {
 		return hook(yamlData)
 	} else {
@@ -1561,9 +1576,10 @@ func ProcessGetConfigAsJson(ctx *fasthttp.RequestCtx) {
 }
 
 func ProcessForceReadConfig(ctx *fasthttp.RequestCtx) {
-	newConfig, err := ReadConfigFile(configFilePath)
+	newConfig, err := rereadConfigFile(configFilePath)
 	if err != nil {
 		log.Errorf("ProcessForceReadConfig: Error while reading config file, configFilepath: %v, err: %v", configFilePath, err)
+		utils.SendInternalError(ctx, "Failed to read the config file, the running config is unchanged", "", err)
 		return
 	}
 	SetConfig(newConfig)
@@ -1580,7 +1596,7 @@ func refreshConfig() {
 	modifiedTime := fileInfo.ModTime()
 	modifiedTimeSec := uint64(modifiedTime.UTC().Unix())
 	if modifiedTimeSec > configFileLastModified {
-		newConfig, err := ReadConfigFile(configFilePath)
+		newConfig, err := rereadConfigFile(configFilePath)
 		if err != nil {
 			log.Errorf("refreshConfig: Error while reading config file, configFilepath: %v, err: %v", configFilePath, err)
 			return
